@@ -387,12 +387,18 @@ impl Cache {
                     })
             })
             .map(|e| {
+                let id: Id = e.file_name().to_str().unwrap().parse().unwrap();
                 (
-                    e.file_name().to_str().unwrap().parse().unwrap(),
+                    id,
                     // handle errors in metadata by returning a size of 0
                     e.metadata().map_or(0, |m| m.len().try_into().unwrap_or(0)),
+                    e,
                 )
-            });
+            })
+            // only use files which are located where the cache saves them; a file with an id-like name
+            // somewhere else is not a cache entry (and could not be read or removed using its id)
+            .filter(|(id, _, e)| e.path() == self.path(tpe, id))
+            .map(|(id, size, _)| (id, size));
 
         Ok(walker.collect())
     }
